@@ -57,3 +57,8 @@ claim("C04", "static analysis: guard dominance (SCCP) with both directions of ea
   "Decides that the per-certificate advance in ValidateFinalityCertificates is unreachable when any check fails, that the loop-carried base/table/chain have the right provenance (base := head of this certificate's chain, signature verified against the table in force), that every error return reports the valid prefix, that the signature check rejects out-of-range and zero-power signers, tests a strong quorum of the same table and verifies the aggregate over exactly the DECIDE payload, that delta application rejects each malformed class (incl. duplicate ids) before touching a fresh map, that MakePowerTableDiff sorts by participant and emits no zero delta, and the canonical order table (C04.R1–R7). Structural necessary conditions; apply(make(a,b)) = b as an identity over all values is not decided.",
   "AS2 cryptography sound; trusts go/types, go/ssa, checker/c04.go.",
   "DESIGN.md §4 C04")
+
+claim("C13", "static analysis: sibling-table agreement (SSA map literals + SCCP inference table), guard dominance on FullyValidateMessage, strip/complete dataflow, shared validator cache-key rules",
+  "Decides that the three copies of the justification table (validator, full validator, pmsg inference) agree with the specification and each other, that FullyValidateMessage's accept is unreachable on a malformed chain, key/chain mismatch, irrelevance, zero-key violations or a justification for a different value/phase, that stripping replaces exactly what completion restores on copies, that completion binds by (instance, announced key) and the host routes completed/buffered messages through one-shot/full validation, that MarshalForSigning delegates with Value.Key(), plus the partial-path validator rules shared with C05 (cache keys include the announced key / verified key) (C13.R1–R9). Structural necessary conditions; extensional equality of the two paths on all inputs is not decided.",
+  "AS2 signatures sound; trusts go/types, go/ssa, checker/c13.go and checker/c05.go.",
+  "DESIGN.md §4 C13")
